@@ -94,6 +94,13 @@ func extractorOps(doc string) []operation {
 			t, _, err := open(dir).ToMarkdown()
 			return fmt.Sprintf("%q %v", t, err)
 		}},
+		{doc + ":ToMarkdown.all", func(dir string) string {
+			// every optional part of the Markdown writer switched on (metadata block, table of contents,
+			// separators, page numbers, chunk ids, shifted heading levels)
+			t, _, err := open(dir).ToMarkdownWithOptions(rag.MarkdownOptions{IncludeMetadata: true, IncludeTableOfContents: true,
+				IncludeChunkSeparators: true, IncludePageNumbers: true, IncludeChunkIDs: true, HeadingLevelOffset: 1, MaxHeadingLevel: 6, SectionSeparator: "\n\n---\n\n"})
+			return fmt.Sprintf("%q %v", t, err)
+		}},
 		{doc + ":Text.xhf", func(dir string) string {
 			t, _, err := open(dir).ExcludeHeadersAndFooters().Text()
 			return fmt.Sprintf("%q %v", t, err)
@@ -162,6 +169,71 @@ func readerTwiceOp(doc string) operation {
 	}}
 }
 
+const sharedMarker = "RESULT-DEPENDS-ON-EARLIER-CALL-ON-ONE-READER"
+
+// sharedReaderOp runs every ordered pair (A, B) of terminal operations on extractors made from ONE opened
+// reader (tabula.FromReader) and compares B's result with B run alone on a reader of its own: a caller that
+// keeps a reader open and asks twice must not get an answer that depends on what was asked before.
+func sharedReaderOp(doc string) operation {
+	type term struct {
+		name string
+		run  func(*tabula.Extractor) string
+	}
+	terms := []term{
+		{"Text", func(x *tabula.Extractor) string { t, _, err := x.Text(); return fmt.Sprintf("%q %v", t, err) }},
+		{"Text.xhf", func(x *tabula.Extractor) string {
+			t, _, err := x.ExcludeHeadersAndFooters().Text()
+			return fmt.Sprintf("%q %v", t, err)
+		}},
+		{"ToMarkdown", func(x *tabula.Extractor) string { t, _, err := x.ToMarkdown(); return fmt.Sprintf("%q %v", t, err) }},
+		{"ToMarkdown.xhf", func(x *tabula.Extractor) string {
+			t, _, err := x.ExcludeHeadersAndFooters().ToMarkdown()
+			return fmt.Sprintf("%q %v", t, err)
+		}},
+		{"Chunks.JSONL", func(x *tabula.Extractor) string {
+			c, _, err := x.Chunks()
+			if err != nil {
+				return "error: " + err.Error()
+			}
+			s, err := c.ToJSONL()
+			return fmt.Sprintf("%q %v", s, err)
+		}},
+		{"Pages(2).Text", func(x *tabula.Extractor) string { t, _, err := x.Pages(2).Text(); return fmt.Sprintf("%q %v", t, err) }},
+	}
+	return operation{doc + ":Shared", func(dir string) string {
+		path := filepath.Join(dir, doc)
+		var out strings.Builder
+		alone := make([]string, len(terms))
+		for i, t := range terms {
+			r, err := reader.Open(path)
+			if err != nil {
+				return "open error: " + err.Error()
+			}
+			alone[i] = guard(func() string { return t.run(tabula.FromReader(r)) })
+			r.Close()
+			fmt.Fprintf(&out, "%s=%s;", t.name, h(alone[i]))
+		}
+		for i, a := range terms {
+			for j, b := range terms {
+				r, err := reader.Open(path)
+				if err != nil {
+					return "open error: " + err.Error()
+				}
+				first := guard(func() string { return a.run(tabula.FromReader(r)) })
+				second := guard(func() string { return b.run(tabula.FromReader(r)) })
+				r.Close()
+				if first != alone[i] {
+					fmt.Fprintf(&out, "\n%s: %s alone gives %s on one reader and %s on another\n", repeatMarker, a.name, alone[i], first)
+				}
+				if second != alone[j] {
+					fmt.Fprintf(&out, "\n%s: %s after %s on one opened reader gives %s, alone it gives %s\n", sharedMarker, b.name, a.name, second, alone[j])
+				}
+			}
+		}
+		return out.String()
+	}}
+}
+
 func rawOp(name, src string) operation {
 	return operation{"raw:" + name, func(string) string {
 		ops, err := contentstream.NewParser([]byte(src)).Parse()
@@ -192,6 +264,9 @@ func operations() []operation {
 		for _, o := range extractorOps(d) {
 			want, restricted := keep[d]
 			ok := !restricted && !strings.HasSuffix(o.name, ":Text.xhf") && !strings.HasSuffix(o.name, ":Chunks.CSV")
+			if strings.HasSuffix(o.name, ":ToMarkdown.all") {
+				ok = map[string]bool{"a.pdf": true, "ties.pdf": true, "hf.pdf": true, "a.docx": true, "a.odt": true, "a.xlsx": true, "a.pptx": true, "a.epub": true, "a.html": true}[d]
+			}
 			for _, w := range want {
 				if o.name == d+":"+w {
 					ok = true
@@ -203,6 +278,9 @@ func operations() []operation {
 		}
 		if strings.HasSuffix(d, ".pdf") {
 			ops = append(ops, readerTwiceOp(d))
+			if d != "broken.pdf" && d != "pending.pdf" {
+				ops = append(ops, sharedReaderOp(d))
+			}
 		}
 	}
 	ops = append(ops,
@@ -225,6 +303,7 @@ func operations() []operation {
 
 type childOut struct {
 	Marked     []bool    `json:"marked"`
+	Shared     []bool    `json:"shared"`
 	Hashes     []string  `json:"hashes"`
 	States     []string  `json:"states"`
 	Outputs    []string  `json:"outputs,omitempty"`
@@ -255,6 +334,7 @@ func child(args []string) {
 			o := guard(func() string { return ops[i].run(dir) })
 			out.Hashes = append(out.Hashes, h(o))
 			out.Marked = append(out.Marked, strings.Contains(o, repeatMarker))
+			out.Shared = append(out.Shared, strings.Contains(o, sharedMarker))
 			out.States = append(out.States, h(verifrt.DumpState()))
 			if os.Getenv("VERIF_C03_VERBOSE") != "" {
 				out.Outputs = append(out.Outputs, o)
@@ -601,6 +681,19 @@ func run(e *harness.Env) {
 								det += "\n" + v
 							}
 							e.Fail(desc, "result-changes-on-repetition", det, nil)
+						}
+						shared := -1
+						for k := range seq {
+							if k < len(out.Shared) && out.Shared[k] {
+								shared = k
+							}
+						}
+						if shared >= 0 && bad < 0 && marked < 0 {
+							det := fmt.Sprintf("operation %d (%s): on one opened reader the result of a terminal operation depends on the operation run before it", shared+1, ops[seq[shared]].name)
+							if v, err := verbose(dir, seq, shared); err == nil {
+								det += "\n" + v
+							}
+							e.Fail(desc, "result-depends-on-earlier-call-on-one-reader", det, nil)
 						}
 						e.Add("transitions", int64(len(seq)))
 						e.Add("traces_validated_against_impl", 1)
